@@ -65,6 +65,13 @@ pub fn make_history(r: &mut Sm, idx: usize) -> History {
     } else {
         None
     };
+    // another query towards the same goal: the second problem shares the first one's goal
+    // (the history runner then hands over the very same goal and space objects)
+    if r.bool(0.25) {
+        p2.goal = p1.goal.clone();
+        p2.infeasible = None;
+        p2.tags.push("shares-the-goal-object-of-problem-0".into());
+    }
     History { problems: vec![p1, p2], params, prm_samples: 5 + r.below(80) as u64, ops, uniform_fail_at: None, starts_override: None, script, prm_build_override: None }
 }
 
